@@ -34,7 +34,7 @@ import sys
 
 import numpy as np
 
-from common import REPO, VERIF, coq_bool, coq_list, shrink_list
+from common import REPO, VERIF, coq_bool, coq_list, shrink_list, source_pins
 
 TRUSTED_BASE = [
     "Coq 8.16.1 kernel + coqc; vm_compute only in the non-vacuity examples and in the correspondence check (no native_compute)",
@@ -55,6 +55,28 @@ RULE = ("bounded-exhaustive: every sequence over {energy, gradient, hessian, tra
         "bare and from a loaded 3-atom species (4-atom: depth 2 / 3); then random sequences of length <= 30 over 40+ "
         "operation variants incl. malformed input; every step of every sequence is one evaluation, non-trivial when the "
         "operation changed the observable state, raised, or results were present; distinct by (stream, start, path).")
+
+# Source pins: every function of /repo the hand model coq/C14/Model.v (and the structure-mirroring parts of this
+# harness: which arrays an operation transforms, which caches a Hessian object holds) was written from.
+# A property name pins its getter AND setter (common._norm_func_src hashes all sibling defs of that name).
+_SP = "autode/species/species.py"
+PINS = [(_SP, "Species." + q) for q in (
+    "__init__", "copy", "new_species", "atoms", "coordinates", "_reset_properties_for",
+    "_clear_energies_gradient_hessian", "graph", "formula", "hessian", "gradient", "frequencies", "normal_mode",
+    "radius", "sn", "energy", "mult", "charge", "reorder_atoms", "_set_reordered_atoms", "translate", "rotate",
+    "_set_rigidly_moved_coordinates", "centre", "optimise", "calc_thermo")] + [
+    ("autode/atoms.py", q) for q in (
+        "AtomCollection.__init__", "AtomCollection.n_atoms", "AtomCollection.coordinates", "AtomCollection.atoms",
+        "Atoms.coordinates", "Atoms.copy", "Atom.translate", "Atom.coord", "Atom.copy")] + [
+    ("autode/hessians.py", "Hessian." + q) for q in (
+        "__new__", "__deepcopy__", "n_tr", "n_v", "_tr_vecs", "_proj_matrix", "_mass_weighted", "_proj_mass_weighted",
+        "normal_modes_proj", "frequencies_proj", "_eigenvalues_to_freqs")] + [
+    ("autode/values.py", q) for q in (
+        "Energies.append", "Energies.last", "ValueArray.__new__", "ValueArray.__array_finalize__",
+        "ValueArray.__reduce__", "ValueArray.__setstate__", "Gradient", "_to")] + [
+    ("autode/geom.py", q) for q in ("calc_rmsd", "get_rot_mat_kabsch", "get_rot_mat_euler", "get_rot_mat_euler_from_terms")] + [
+    ("autode/mol_graphs.py", "reorder_nodes"), ("autode/thermochemistry/symmetry.py", "symmetry_number"),
+    ("autode/thermochemistry/igm.py", "calculate_thermo_cont"), ("autode/utils.py", "requires_atoms")]
 
 SLICE = ["C14/Model.v", "C14/Lemmas.v", "C14/Rigid.v", "C14/Props.v", "C14/Corr.v"]
 PRE = ("From Coq Require Import List ZArith Bool.\nFrom AV.lib Require Import QcInst.\nFrom AV.C14 Require Import Model Lemmas Corr.\nImport ListNotations.\n"
@@ -1203,6 +1225,10 @@ def run(ctx):
     import logging
     logging.disable(logging.CRITICAL)
     full = not ctx.quick
+    pins_changed = source_pins(ctx.pid, PINS)
+    ctx.cov["source_pins"] = {"pinned": len(PINS), "changed": pins_changed}
+    if pins_changed:
+        ctx.log("source pins changed:", ", ".join(pins_changed))
     # 1. proofs
     proofs_ok, info = ctx.proofs(SLICE, "C14/Props.v", "AV.C14.Props", extra_targets=["C14/Corr.vo"])
     ctx.log("proofs:", "ok" if proofs_ok else "BROKEN")
@@ -1265,15 +1291,15 @@ def run(ctx):
                     account("units", r, f"{n}-u{ui}")
     # 2b''. every multiplicity input from a loaded species, and same-composition atom lists in another order
     for n in (3, 4):
-        for v in MULT_VALUES:
+        for v in (MULT_VALUES if (full or n == 3) else []):
             r = run_sequence(n, LOADED + [{"k": "mult", "v": v}, {"k": "copy"}, {"k": "query", "q": "sn"}])
             r.n0 = n
             runs.append(r)
             account("mult", r, f"{n}")
         labs = BASE[n][0]
-        for perm in itertools.permutations(range(n)):
+        for pi, perm in enumerate(itertools.permutations(range(n))):
             pl = [labs[i] for i in perm]
-            if pl == labs:
+            if pl == labs or (ctx.quick and n == 4 and pi % 3):
                 continue
             for xyz in ("same", D3):
                 r = run_sequence(n, LOADED + [{"k": "atoms", "mode": "permuted", "labels": pl, "xyz": xyz},
@@ -1302,7 +1328,7 @@ def run(ctx):
         account("random", r, f"{n}-r{q}")
     ctx.log(f"random sequences: {len(rand_runs)} ({sum(len(r.steps) for r in rand_runs)} steps), findings so far {len(findings)}")
     # 3. aliasing probes on reached states
-    nal = 60 if full else 7
+    nal = 60 if full else 5
     for q, r in enumerate(rand_runs[:nal] + runs[-3:]):
         for key, what, rep in aliasing_probe(ctx, r, q):
             findings.append((key, what, {"kind": "aliasing", "n_atoms": r.n0, "ops": r.ops, **rep}))
@@ -1344,6 +1370,9 @@ def run(ctx):
     # 6. decide
     if not proofs_ok:
         ctx.proof_failure(info, found_any_input=new_viol > 0)
+    if pins_changed and new_viol == 0 and not (corr_bad or corr_err) and proofs_ok:
+        ctx.violation("hand model no longer pinned to the source: " + ", ".join(pins_changed),
+                      {"kind": "source-pin", "changed": pins_changed}, found_input=False)
     if corr_bad or corr_err:
         if new_viol == 0:
             r, k, fields = corr_bad[0] if corr_bad else (None, None, [])
@@ -1427,3 +1456,4 @@ MANIFEST = {
                    "are exercised on the implementation only.  Tolerance-level geometry changes (RMSD <= 1e-8 A) are treated "
                    "as 'same geometry', as the code does."),
 }
+
